@@ -1194,7 +1194,7 @@ namespace link_layer {
     template < class Server, template < std::size_t, std::size_t, class > class ScheduledRadio, typename ... Options >
     bool link_layer< Server, ScheduledRadio, Options... >::phy_update_request( std::uint8_t transmit, std::uint8_t receive )
     {
-        if ( phy_update_request_pending_ )
+        if ( phy_update_request_pending_ || !procedure_timeout_.zero() )
             return false;
 
         phy_update_request_pending_  = true;
@@ -1314,7 +1314,7 @@ namespace link_layer {
 
             this->commit_ll_transmit_buffer( out_buffer );
         }
-        else if ( phy_update_request_pending_ )
+        else if ( phy_update_request_pending_ && procedure_timeout_.zero() )
         {
             procedure_timeout_ = delta_time( default_procedure_timeout_us );
             phy_update_request_pending_ = false;
